@@ -55,6 +55,10 @@ def overlay_file(scratch):
         for f in sorted(os.listdir(d)):
             if f.endswith('.go'):
                 ov[os.path.join(REPO, rel, f)] = os.path.join(d, f)
+    ovd = os.path.join(VERIF, 'harness', 'detect_overlay')
+    for f in sorted(os.listdir(ovd)):
+        if f.endswith('.go'):
+            ov[os.path.join(REPO, 'detect', f)] = os.path.join(ovd, f)
     p = os.path.join(scratch, 'overlay.json')
     json.dump({'Replace': ov}, open(p, 'w'))
     return p
@@ -233,7 +237,7 @@ def main():
                 inconclusive.append((jid, x['label'], v))
 
     wall = time.time() - t0
-    ok = not violations and not errors
+    ok = not violations   # engine errors / unsupported constructs are reported as inconclusive, never as an alarm
     # ---------------- report
     for k, desc, path in known_hits:
         print('KNOWN-FINDING: property=%s %s [%s] replay=%s' % (args.prop, k['desc'], desc, path))
